@@ -383,6 +383,41 @@ func (c Cylinder) verifControlFlipGoodRight() modeling.Mesh {
 	bottom := rotate(Circle{Sides: c.Sides, Radius: c.Radius}.ToMesh(), quaternion.FromTheta(math.Pi, vector3.Right[float64]())).Translate(vector3.New(0, -c.Height/2, 0))
 	return side.Append(bottom)
 }
+
+// must fire (SPHERE-RADIUS): the bottom pole is the unit vector, the rest of the sphere has the given radius
+func verifControlSphereRadiusBadUnitPole(radius float64, rows, columns int) modeling.Mesh {
+	positions := make([]vector3.Float64, 0)
+	positions = append(positions, vector3.New(0, radius, 0))
+	for i := 0; i < rows-1; i++ {
+		phi := math.Pi * float64(i+1) / float64(rows)
+		for j := 0; j < columns; j++ {
+			theta := 2.0 * math.Pi * float64(j) / float64(columns)
+			positions = append(positions, vector3.New(math.Sin(phi)*math.Cos(theta), math.Cos(phi), math.Sin(phi)*math.Sin(theta)).Scale(radius))
+		}
+	}
+	positions = append(positions, vector3.Down[float64]())
+	return modeling.NewTriangleMesh(nil).SetFloat3Data(map[string][]vector3.Float64{modeling.PositionAttribute: positions})
+}
+
+// must stay silent (SPHERE-RADIUS): poles hoisted and written through the axis constants, vertices re-emitted per triangle
+func verifControlSphereRadiusGoodHoisted(radius float64, rows, columns int) modeling.Mesh {
+	north, south := vector3.Up[float64]().Scale(radius), vector3.Down[float64]().Scale(radius)
+	var ring []vector3.Float64
+	ring = append(ring, north)
+	for i := 0; i < rows-1; i++ {
+		phi := math.Pi * float64(i+1) / float64(rows)
+		for j := 0; j < columns; j++ {
+			theta := 2.0 * math.Pi * float64(j) / float64(columns)
+			ring = append(ring, vector3.New(radius*math.Sin(phi)*math.Cos(theta), radius*math.Cos(phi), radius*math.Sin(phi)*math.Sin(theta)))
+		}
+	}
+	ring = append(ring, south)
+	var out []vector3.Float64
+	for i := 0; i < columns; i++ {
+		out = append(out, ring[0], ring[(i+1)%columns+1], ring[i+1])
+	}
+	return modeling.NewTriangleMesh(nil).SetFloat3Data(map[string][]vector3.Float64{modeling.PositionAttribute: out})
+}
 `,
 	}
 }
